@@ -284,10 +284,19 @@ def listcomp(eng, n, fr):
             c.length = eng.list_len(coll)     # length of the source when the comprehension is evaluated
             return c
         raise Unsupported('comprehension building fresh lists over a filtered / non-list source')
-    ety = eng.value_type(elt)
-    if isinstance(ety, TOpt) or ety == NONE:
-        raise Unsupported('list comprehension with None elements')
-    et = eng.coerce_term(elt, ety)
+    if isinstance(elt, ConstDict) and elt.items and all(isinstance(k, str) for k, _ in elt.items) and len(vars_) == 1:
+        # one str-keyed dict LITERAL per selected element (e.g. the payload list returned by StarterModel.feed_model):
+        # the value expressions have been evaluated above (their `safe:` obligations are generated); the records
+        # themselves are ABSTRACTED - element j is an opaque payload reference, nothing is known about its contents,
+        # its freshness or its allocation.  Sound over-approximation: whatever is proved of the result holds for any
+        # list of that length; a clause about the contents of these records is undecidable with it, never wrongly proved.
+        ety = REC
+        et = eng.run.fresh('reclit', arr(vars_[0].sort(), Ref))[vars_[0]]
+    else:
+        ety = eng.value_type(elt)
+        if isinstance(ety, TOpt) or ety == NONE:
+            raise Unsupported('list comprehension with None elements')
+        et = eng.coerce_term(elt, ety)
     r = eng.alloc('list')
     nl = ListV(r, ety)
     name, da = eng.list_data(nl)
